@@ -474,6 +474,22 @@ theorem il_conv_cell (data kernel : List F) (nx ny a b : Nat) (s : State F) (fue
     rw [ha, hb]
     omega
 
+/-- **il_convolve_even_err.** a kernel with an even side is outside the property's domain ("any odd kernel shape"), and
+    for a reason: whenever the outer loops visit a cell, the generated program stops at an out-of-range read of
+    `kernel` (numba does not check: undefined behaviour).  `custom_kernel` rejects such kernels (`kernel_validation`),
+    `convolution_2d` / `hotspots` do not call it. -/
+theorem il_convolve_even_err (data kernel : List F) (nx ny nkx nky : Nat) (s : State F) (fuel : Nat)
+    (hin : ConvInput data kernel nx ny nkx nky s) (heven : nkx % 2 = 0 ∨ nky % 2 = 0)
+    (hvisx : 2 * (nkx / 2) < nx) (hvisy : 2 * (nky / 2) < ny) :
+    (Gen.IL.convolve2d.run s fuel).ctl = .err "index" :=
+  convolve2d_even_err data kernel nx ny nkx nky s fuel hin heven hvisx hvisy
+
+-- non-vacuity: a 2x2 kernel on a 3x3 raster, a 3x2 kernel on a 3x4 raster, any contents, any number type
+example (data kernel : List F) : (Gen.IL.convolve2d.run (convState data kernel 3 3 2 2) 0).ctl = .err "index" :=
+  il_convolve_even_err data kernel 3 3 2 2 _ 0 (convState_input _ _ _ _ _ _) (by decide) (by decide) (by decide)
+example (data kernel : List F) : (Gen.IL.convolve2d.run (convState data kernel 3 4 3 2) 0).ctl = .err "index" :=
+  il_convolve_even_err data kernel 3 4 3 2 _ 0 (convState_input _ _ _ _ _ _) (by decide) (by decide) (by decide)
+
 end ILGeneric
 
 section ILExact
